@@ -347,6 +347,9 @@ structure Out where
   quas : List Qua
   edgs : List Edg
 
+/-- what replaces a tet: its children, or the tet itself when the template is empty (`case 0`) -/
+def keepOr (t : Tet) (cs : List Tet) : List Tet := if cs.isEmpty then [t] else cs
+
 /-- `ref_subdiv_split_tet`: `REF_IMPLEMENT` at the first cell with an unsupported pattern -/
 def splitTets (btw : Int → Int → Int) (E : EdgeTab) (m : List Nat) : List Tet → Option (List Tet)
   | [] => some []
@@ -356,7 +359,7 @@ def splitTets (btw : Int → Int → Int) (E : EdgeTab) (m : List Nat) : List Te
     | some cs =>
       match splitTets btw E m rest with
       | none => none
-      | some r => some ((if cs.isEmpty then [t] else cs) ++ r)
+      | some r => some (keepOr t cs ++ r)
 
 def sideMark (E : EdgeTab) (m : List Nat) (a b : Int) : Option Bool :=
   (edgeWith E a b).map fun e => on m e
